@@ -36,6 +36,7 @@ import re
 import struct
 from fractions import Fraction
 
+import dispatchx as dx
 import gen
 import vlib
 
@@ -71,11 +72,11 @@ def parse_includes(src, path):
 
 def parse_statics(src, path):
     """[(MAP_NAME, kind, previous or None, BYTES_NAME)] in source order"""
-    m = re.search(r"lazy_static!\s*\{(.*?)\}\s*(?:pub|fn|#)", src)
-    if not m:
+    i = src.find("lazy_static!")
+    if i < 0:
         raise gen.GenError("%s: lazy_static! block not found" % path)
     out = []
-    for item in [x.strip() for x in m.group(1).split(";") if x.strip()]:
+    for item in [x.strip() for x in dx.brace_body(src, i).split(";") if x.strip()]:
         mm = re.fullmatch(r"static ref (\w+)\s*:\s*HashMap<\s*\w+\s*,\s*\w+\s*>\s*=\s*(.+)", item)
         if not mm:
             raise gen.GenError("%s: unknown lazy_static item %r" % (path, item))
@@ -91,52 +92,47 @@ def parse_statics(src, path):
     return out
 
 
-def coq_pat(p):
-    kind, v = gen.run_pattern(p)
-    return {"eq": "PEq %d" % (v or 0), "ge": "PGe %d" % (v or 0), "any": "PAny"}[kind], (kind, v)
+def read_map_dispatch(src, path, fn, names):
+    """the run-number dispatch of a map look-up function as canonical arms whose values are the NAMES of the selected
+    `static ref` maps (None: no map); dispatchx front end: match / if chains / guards / named constants / closed ranges"""
+    consts = dx.int_consts(src)
+    block = dx.parse_body(dx.fn_body(src, "fn " + fn))
+    early, lets = dx.dispatch_statements(block)
+    if len(lets) != 1:
+        raise gen.GenError("%s: %d `let .. = match/if` statements on run_number in %s" % (path, len(lets), fn))
+    k, _, node = lets[0]
+
+    def resolve(leaf):
+        if dx.leaf_is_err(leaf):
+            return None
+        n = dx.leaf_table(leaf)
+        if n is None:
+            raise gen.GenError("%s: unknown arm body %r" % (path, dx.show(leaf)))
+        if n not in names:
+            raise gen.GenError("%s: arm selects unknown map %s" % (path, n))
+        return n
+    return dx.canonical_arms(dx.tree_function([e for j, e in early if j < k] + [node], consts, resolve))
 
 
-def parse_map_arms(src, path, fn, names):
-    """arms of `match run_number` in fn: [(coq pattern, (kind, v), table index or None)]"""
-    arms = gen.match_arms(src, "fn " + fn, "run_number")
-    out = []
-    for p, b in arms:
-        cp, kv = coq_pat(p)
-        m = re.fullmatch(r"(?:&\s*\*\s*(\w+)|(\w+)\.deref\(\))", b)
-        if m:
-            nm = m.group(1) or m.group(2)
-            if nm not in names:
-                raise gen.GenError("%s: arm %r selects unknown map %s" % (path, p, nm))
-            out.append((cp, kv, names.index(nm)))
-        elif re.fullmatch(r"return Err\(.*\)", b):
-            out.append((cp, kv, None))
-        else:
-            raise gen.GenError("%s: unknown arm body %r" % (path, b))
-    check_arms(out, path)
-    return out
+def read_delay_dispatch(src, path, fn):
+    """canonical arms of a delay function: value = the delay of `Ok(<constant>)`, None for `Err(..)`"""
+    consts = dx.int_consts(src)
+    block = dx.parse_body(dx.fn_body(src, "fn " + fn))
+
+    def resolve(leaf):
+        if dx.leaf_is_err(leaf):
+            return None
+        v = dx.leaf_ok_int(leaf, consts)
+        if v is None:
+            raise gen.GenError("%s: unknown delay arm body %r" % (path, dx.show(leaf)))
+        return v
+    return dx.canonical_arms(dx.tree_function(block, consts, resolve))
 
 
-def parse_delay_arms(src, path, fn):
-    arms = gen.match_arms(src, "fn " + fn, "run_number")
-    out = []
-    for p, b in arms:
-        cp, kv = coq_pat(p)
-        m = re.fullmatch(r"Ok\(\s*(\d[\d_]*)\s*(?:usize)?\s*\)", b)
-        if m:
-            out.append((cp, kv, int(m.group(1).replace("_", ""))))
-        elif re.fullmatch(r"Err\(.*\)", b):
-            out.append((cp, kv, None))
-        else:
-            raise gen.GenError("%s: unknown delay arm body %r" % (path, b))
-    check_arms(out, path)
-    return out
-
-
-def check_arms(arms, path):
-    if not arms or arms[-1][1][0] != "any":
-        raise gen.GenError("%s: last arm is not `_`" % path)
-    if any(a[1][0] == "any" for a in arms[:-1]):
-        raise gen.GenError("%s: `_` arm before the end" % path)
+def legacy(arms):
+    """canonical arms -> [(coq pattern, (kind, v), body)]"""
+    pat = {"eq": "PEq %d", "ge": "PGe %d", "any": "PAny"}
+    return [((pat[k] % n) if k != "any" else "PAny", (k, n), v) for k, n, v in arms]
 
 
 def need(src, path, pats):
@@ -274,7 +270,9 @@ def round_i16(x):
 
 
 def load_family(path_rs, fn, family, quantity):
-    """returns (tables, arms, names, files); a table is a dict key -> value (int baseline | float gain)"""
+    """the `static ref` maps of one calibration source file BY NAME (their order and names carry no meaning) and the
+    dispatch, as canonical arms over map names (None when the front end cannot read it; `why` says why);
+    a table is a dict key -> value (int baseline | float gain)"""
     src = flat(path_rs)
     data_dir, files = parse_includes(src, path_rs)
     statics = parse_statics(src, path_rs)
@@ -287,21 +285,30 @@ def load_family(path_rs, fn, family, quantity):
         need(src, path_rs, [r"serde_json::from_slice\(bytes\)\.unwrap\(\)"])
     else:
         need(src, path_rs, [r"ron::de::from_bytes\(bytes\)\.unwrap\(\)"])
-    tables, used = [], []
-    for name, kind, prev, bname in statics:
+    tables, used = {}, {}
+    by_name = {s[0]: s for s in statics}
+    if len(by_name) != len(statics):
+        raise gen.GenError("%s: two maps of the same name" % path_rs)
+
+    def build(name, pending):
+        if name in tables:
+            return tables[name]
+        if name in pending:
+            raise gen.GenError("%s: %s is defined in terms of itself" % (path_rs, name))
+        _, kind, prev, bname = by_name[name]
         if bname not in files:
             raise gen.GenError("%s: %s is not in the includes! list" % (path_rs, bname))
         fpath = os.path.join(data_dir, files[bname])
-        used.append(os.path.relpath(fpath, gen.REPO))
+        used[name] = os.path.relpath(fpath, gen.REPO)
         if not os.path.exists(fpath):
             raise gen.GenError("%s: data file %s not found" % (path_rs, fpath))
         entries = parse_json_map(fpath) if family == "wires" else parse_ron_map(fpath)
         if kind == "complete":
             tab = {}
         else:
-            if prev not in names[:len(tables)]:
-                raise gen.GenError("%s: %s updates %s, which is not defined before it" % (path_rs, name, prev))
-            tab = dict(tables[names.index(prev)])
+            if prev not in by_name:
+                raise gen.GenError("%s: %s updates %s, which is not defined" % (path_rs, name, prev))
+            tab = dict(build(prev, pending | {name}))
         for key, v in entries:
             if family == "wires":
                 if not key < N_WIRES:
@@ -321,9 +328,15 @@ def load_family(path_rs, fn, family, quantity):
                 if isinstance(v, tuple):
                     raise gen.GenError("%s: gain entry is not a number" % fpath)
                 tab[key] = v
-        tables.append(tab)
-    arms = parse_map_arms(src, path_rs, fn, names)
-    return tables, arms, names, used
+        tables[name] = tab
+        return tab
+    for name in names:
+        build(name, frozenset())
+    try:
+        arms, why = read_map_dispatch(src, path_rs, fn, names), None
+    except gen.GenError as e:
+        arms, why = None, str(e)
+    return dict(tables=tables, names=names, files=used, arms=arms, why=why, path=path_rs, src=src)
 
 
 # ----------------------------------------------------------------------------------------- implementation dump
@@ -449,27 +462,109 @@ def arms_text(name, arms, comment):
     return "(* %s *)\nDefinition %s : list (rpat * option N) :=\n  [%s].\n" % (comment, name, "; ".join(rows))
 
 
+def entry_list(fam, dump):
+    return dump[0] if fam == "wires" else [e for col in dump[1] for e in col]
+
+
+def reconstruct_family(fam, keys, F, dumps, runs):
+    """semantic fallback (dispatchx.reconstruct) for the dispatches of one detector family the front end could not
+    read: F = dict(baseline=.., gain=.., delay=..) with arms None where unknown; fills the arms in"""
+    known = {q: F[q]["arms"] for q in ("baseline", "gain", "delay") if F[q]["arms"] is not None}
+    entries = {r: entry_list(fam, dumps[r]) for r in runs}
+
+    def delays(r):
+        return sorted({e[2] for e in entries[r] if e is not None})
+    domains = {"baseline": list(F["baseline"]["names"]), "gain": list(F["gain"]["names"]), "delay": delays}
+
+    def matches(sel, r):
+        got = entries[r]
+        if sel["baseline"] is None or sel["gain"] is None or sel["delay"] is None:
+            return all(e is None for e in got)
+        bt, gt, dl = F["baseline"]["tables"][sel["baseline"]], F["gain"]["tables"][sel["gain"]], sel["delay"]
+        for key, e in zip(keys, got):
+            if key in bt and key in gt:
+                if e is None or e[0] != bt[key] or e[2] != dl or abs(ordered(gt[key]) - ordered(e[1])) > 1:
+                    return False
+            elif e is not None:
+                return False
+        return True
+    def more(rs):
+        for r, d in dump_runs(rs).items():
+            dumps[r] = d
+            entries[r] = entry_list(fam, d)
+    rec = dx.reconstruct("calibration/%s" % fam, runs, domains, known, matches,
+                         lambda r: all(e is None for e in entries[r]), more=more)
+    for q, arms in rec.items():
+        F[q]["arms"] = arms
+
+
 def generate():
     fams = {}
+    unread = []
     for fam, unit in (("wires", "wire"), ("pads", "pad")):
         b = load_family("%s/%s/baseline.rs" % (SRC, fam), "try_%s_baseline" % unit, fam, "baseline")
         g = load_family("%s/%s/gain.rs" % (SRC, fam), "try_%s_gain" % unit, fam, "gain")
         dpath = "%s/%s/delay.rs" % (SRC, fam)
-        d = parse_delay_arms(flat(dpath), dpath, "try_%s_delay" % unit)
-        fams[fam] = (b, g, d)
+        d = dict(path=dpath, src=flat(dpath), why=None)
+        try:
+            d["arms"] = read_delay_dispatch(d["src"], dpath, "try_%s_delay" % unit)
+        except gen.GenError as e:
+            d["arms"], d["why"] = None, str(e)
+        fams[fam] = dict(baseline=b, gain=g, delay=d)
+        unread += [(fam, q) for q in ("baseline", "gain", "delay") if fams[fam][q]["arms"] is None]
     # how lib.rs uses the three lookups (order, `?`, skip(delay), widened subtraction) is modelled in Event/Event.v and
     # tied by the differential run, which names a failing input; it is deliberately not a shape check here
-    runs = arm_points(*[a for f in fams.values() for a in (f[0][1], f[1][1], f[2])])
+    runs = set(arm_points(*[legacy(F[q]["arms"]) for F in fams.values() for q in F if F[q]["arms"] is not None]))
+    if unread:
+        for F in fams.values():
+            for q in F:
+                runs.update(dx.candidate_runs(F[q]["src"]))
+    runs = sorted(runs)
     dumps = dump_runs(runs)
-    stats = dict(total=0, off=0, far=0, seen=dict(wires=set(), pads=set()))
     wkeys = list(range(N_WIRES))
     pkeys = [(c, r) for c in range(N_COLS) for r in range(N_ROWS)]
+    notes = []
+    for fam, keys in (("wires", wkeys), ("pads", pkeys)):
+        qs = [q for f, q in unread if f == fam]
+        if qs:
+            reconstruct_family(fam, keys, fams[fam], dumps, runs)
+            notes.append("%s\n(* calibration/%s: the front end could not read the dispatch of %s.\n"
+                         "   The implementation (verif hooks, all %d entries of the family) was evaluated at %d candidate run numbers\n"
+                         "   (every integer literal and integer constant of the calibration sources, each +-1, and 0, 1, u32::MAX-1,\n"
+                         "   u32::MAX); at each one the parsed tables / the delay that reproduce the implementation's COMPLETE answer\n"
+                         "   were identified.  ASSUMPTION: the dispatch is constant between consecutive candidates with the same answer\n"
+                         "   (a change between two candidates is located by bisection); the differential run (arm boundaries +-2 and\n"
+                         "   a stride of runs) checks it.  A calibration triple needs baseline, gain and\n"
+                         "   delay: where the implementation has no triple at all, a dispatch hidden behind another one's error\n"
+                         "   cannot be observed and a reconstructed dispatch says None there. *)\n"
+                         % (dx.FALLBACK_MARK, fam,
+                            "; ".join("%s (%s)" % (q, dx.comment_safe(fams[fam][q]["why"] or "", 200)) for q in qs),
+                            len(keys), len(runs)))
+    # canonical order of the maps of a file: by the run numbers that select them, not by their names or positions
+    old = {}
+    for fam in fams:
+        F = fams[fam]
+        for q in ("baseline", "gain"):
+            L = F[q]
+            order = dx.first_selection_order(L["names"], L["arms"])
+            L["order"] = order
+            L["iarms"] = legacy([(k, n, None if v is None else order.index(v)) for k, n, v in L["arms"]])
+            L["tabs"] = [L["tables"][n] for n in order]
+        F["delay"]["iarms"] = legacy(F["delay"]["arms"])
+        old[fam] = ((F["baseline"]["tabs"], F["baseline"]["iarms"], F["baseline"]["order"],
+                     [F["baseline"]["files"][n] for n in F["baseline"]["order"]]),
+                    (F["gain"]["tabs"], F["gain"]["iarms"], F["gain"]["order"],
+                     [F["gain"]["files"][n] for n in F["gain"]["order"]]),
+                    F["delay"]["iarms"])
+    fams = old
+    stats = dict(total=0, off=0, far=0, seen=dict(wires=set(), pads=set()))
     for fam, keys in (("wires", wkeys), ("pads", pkeys)):
         (bt, ba, _, _), (gt, ga, _, _), da = fams[fam]
         adopt_gains(fam, keys, bt, ba, gt, ga, da, dumps, stats)
 
     out = [gen.HEADER.replace("tools/gen.py", "tools/genx_calib.py")]
     out.append("From AG Require Import Ident.Dispatch.\n\n")
+    out.extend(notes)
     out.append("(* Calibration of physics/src/calibration/**: tables per `static ref` map in source order, `match run_number`\n"
                "   arms in source order.  baseline = round-half-away(first component) as i16, computed from the data file;\n"
                "   gain = the f64 the library uses, written as (mantissa, exponent) with gain = mantissa * 2^exponent exactly: %d gains could be compared with the implementation through the verif hooks,\n"
